@@ -179,6 +179,30 @@ CLAIMED["C18"] = dict(
          "(np.arange with symbolic bounds), file round trip.",
     design="3 (C18)")
 
+CLAIMED["C07"] = dict(
+    level="proof",
+    text=("Relational (two-run) covariance obligations discharged on the summaries of the real functions: with every dimensionful input "
+          "multiplied by lam^dim and every model/EOS callback rescaled by its homogeneity, for EVERY lam>0 each output is multiplied by lam^(its "
+          "dimension) and every branch decision is unchanged. Covered: all Thermodynamics EOS functions, setExtrapolate (mu:0, a:4-mu, epsilon:4) and "
+          "alpha; Hydrodynamics vpvmAndvpovm, matchDeton, matchDeflagOrHyb (both modes), temperature mappings, findHydroBoundaries (c1,c2: 4), shockDE; "
+          "template __init__ (alN, psiN, cb2, cs2, mu, nu dimensionless; wN, pN, epsilon pressures), vJ, getVp, _findTm, boundary constants; EOM "
+          "plasmaVelocity, T33 balance, wallProfile (field, field/length), _updateGrid (lengths), the initial wall 5/Tn, and the bounds handed to "
+          "Nelder-Mead (each has the dimension of the parameter it bounds); WallGoManager.buildGrid (lengths in units of 1/Tn); both grid maps."),
+    note=COMMON_NOTE + " The premise of the property (the potential, masses and EOS are rescaled accordingly) enters as homogeneity of the spec "
+         "functions. Declared absolute-tolerance sites are listed in the evidence as assumptions, not proved harmless: xtol=atol on temperature root "
+         "finds, pressAbsErrTol=1e-8, |Tn-T+|<1e-10 and xtol=1e-10 in findPlasmaProfilePoint, the 1e50 literal in vpvmAndvpovm. Not covered: "
+         "phase tracing (freeEnergy/effectivePotential tolerances, incl. the absolute gradient tolerance of the minimiser), the pressure iteration.",
+    design="3 (C07)")
+CLAIMED["C08"] = dict(
+    level="proof",
+    text=("Relational covariance obligations on summaries for two fields, every translation vector (symbolic shifts), every sign pattern (symbolic "
+          "signs with s^2=1) and the swap, with potential / gradient / masses transformed consistently: wallProfile returns A fields + b and A dPhidz; "
+          "EOM.action is invariant; the pressure integrand of _intermediatePressureResults is invariant under translation+reflection; the T33 balance is "
+          "invariant; _updateGrid passes the same thickness, centre and tails when widths/offsets are swapped."),
+    note=COMMON_NOTE + " Premise: callbacks transformed consistently. Declared site: the first offset is pinned to 0, so the swap is not applied to the "
+         "minimisation in _intermediatePressureResults. Not decided: Nelder-Mead / phase tracer / BFGS behaviour under relabelling, more than two fields.",
+    design="3 (C08)")
+
 NOT_APPLICABLE = {
     "C11": "RK45 phase tracing interleaved with BFGS re-minimisation on an arbitrary potential: the content is the numerical behaviour of external routines; no contract within reach expresses or decides it (DESIGN section 4)",
     "C20": "values of improper integrals of transcendental integrands, 2x10000 table rows and quad: not decidable by SMT; checking rows against the integral is numerical testing, a different family (DESIGN section 4)",
